@@ -28,6 +28,7 @@ CONSTANTS
   EqPad,      \* <<blanks before '=', blanks behind '='>> in name='..' / to='..' (sequences of characters, <<>> for none)
   ExtraAttr,  \* text appended to the attributes of every opening tag, <<>> for none: an attribute that must mean nothing,
               \* e.g. " skipper", " Skip", " xunwrap-block", " names='a'"
+  OpenPad,    \* FALSE: only closing tags carry TagPad ("<tag a='b'> ... </tag -->" with a surplus character in front of the end delimiter)
   TagPad,     \* characters between the tag body and the end delimiter (and behind the start delimiter of closing tags stays
               \* none): <<>> or e.g. <<SP>> ("<tag a='b' >"), the README's padded style
   Lead,       \* characters in front of the whole document: <<>>, a byte order mark <<65279>>, or a first line with another
@@ -164,7 +165,7 @@ OpenTag(kd, n) ==
      \o (IF FlagsFirst THEN FlagAttrs(kd) \o CondAttr(kd) ELSE CondAttr(kd) \o FlagAttrs(kd))
      \o ExtraAttr
      \o TagSep \o <<99, 61>> \o Q \o <<101>> \o Digits(n) \o Q                                                 \* c='e<n>'
-     \o TagPad \o DE
+     \o (IF OpenPad THEN TagPad ELSE <<>>) \o DE
 CloseTag(kd) == DS \o <<47>> \o TagName(kd) \o TagPad \o DE
 
 \* the text of a piece of code sharing its line with a tag: "c<n>;" or, under MbCode, multi-byte characters only
